@@ -30,7 +30,8 @@ type vector struct {
 	Kind  string          `json:"kind"`
 	Base  int             `json:"base"`
 	Field string          `json:"field"`
-	Val   json.RawMessage `json:"val"`
+	Val    json.RawMessage `json:"val"`
+	Layout string          `json:"layout"` // exact | spare | shared (memory layout of reply.Data, replies only)
 }
 
 type line struct {
@@ -39,7 +40,9 @@ type line struct {
 	Base        int             `json:"base"`
 	Field       string          `json:"field"`
 	Val         json.RawMessage `json:"val"`
-	Verdict     string          `json:"verdict"` // ok | reject
+	Layout      string          `json:"layout"`
+	Verdict     string          `json:"verdict"`  // ok | reject
+	Verdict2    string          `json:"verdict2"` // the same check once more on the same objects
 	Why         string          `json:"why"`
 	RO          bool            `json:"ro"`
 	Changed     string          `json:"changed"`
@@ -364,7 +367,11 @@ func diffExchange(reqA, reqB *pairingtypes.RelayRequest, repA, repB *pairingtype
 	if reqA.RelayData.RequestBlock != reqB.RelayData.RequestBlock {
 		add("req.request_block")
 	}
+	if !bytes.Equal(reqA.RelayData.Data, reqB.RelayData.Data) {
+		add("req.data")
+	}
 	a, b := cloneReq(reqA), cloneReq(reqB)
+	a.RelayData.Data, b.RelayData.Data = nil, nil
 	a.RelayData.Salt, b.RelayData.Salt = nil, nil
 	a.RelayData.RequestBlock, b.RelayData.RequestBlock = 0, 0
 	if !bytes.Equal(snap(a), snap(b)) {
@@ -378,6 +385,65 @@ func diffExchange(reqA, reqB *pairingtypes.RelayRequest, repA, repB *pairingtype
 		add("reply")
 	}
 	return what
+}
+
+// ---- memory layout of reply.Data ------------------------------------------------------------------
+const (
+	spare    = 8192 // spare capacity behind reply.Data, far more than the signed message needs
+	sentinel = 0xEE
+)
+
+// rehome makes rep.Data a window buf[:n] of a larger sentinel-filled buffer ("spare": the tail belongs
+// to somebody else; "shared": the request's data is a window of the same buffer right behind the
+// reply data) or an exactly sized slice ("exact").  It returns the whole backing buffer.
+func rehome(req *pairingtypes.RelayRequest, rep *pairingtypes.RelayReply, layout string) []byte {
+	n := len(rep.Data)
+	switch layout {
+	case "", "exact":
+		if n > 0 {
+			d := make([]byte, n)
+			copy(d, rep.Data)
+			rep.Data = d
+		}
+		return nil
+	case "spare", "shared":
+		big := bytes.Repeat([]byte{sentinel}, n+spare)
+		copy(big, rep.Data)
+		rep.Data = big[:n]
+		if layout == "shared" {
+			m := len(req.RelayData.Data)
+			copy(big[n:], req.RelayData.Data)
+			req.RelayData.Data = big[n : n+m : n+m]
+		}
+		return big
+	}
+	hx.Die("unknown layout %q", layout)
+	return nil
+}
+
+// bufDiff names a change of the backing buffer outside the visible reply/request bytes
+func bufDiff(before, after []byte) string {
+	if bytes.Equal(before, after) {
+		return ""
+	}
+	return "reply.buffer-tail"
+}
+
+func join(a, b string) string {
+	if a == "" {
+		return b
+	}
+	if b == "" {
+		return a
+	}
+	return a + "+" + b
+}
+
+func verdictOf(err error) string {
+	if err == nil {
+		return "ok"
+	}
+	return "reject"
 }
 
 func main() {
@@ -395,7 +461,10 @@ func main() {
 	var consumerKey, providerKey *btcSecp256k1.PrivateKey = consumer.SK, provider.SK
 
 	for id, v := range vectors {
-		ln := line{ID: id, Kind: v.Kind, Base: v.Base, Field: v.Field, Val: v.Val, RO: true, SignRO: true}
+		if v.Layout == "" {
+			v.Layout = "exact"
+		}
+		ln := line{ID: id, Kind: v.Kind, Base: v.Base, Field: v.Field, Val: v.Val, Layout: v.Layout, RO: true, SignRO: true}
 		switch v.Kind {
 		case "session":
 			s := mkSession(v.Base)
@@ -422,6 +491,11 @@ func main() {
 			if !bytes.Equal(before, snap(s)) {
 				ln.RO, ln.Changed = false, "session"
 			}
+			addr2, err2 := sigs.ExtractSignerAddress(*s)
+			ln.Verdict2 = "reject"
+			if err2 == nil && addr2.Equals(consumer.Addr) {
+				ln.Verdict2 = "ok"
+			}
 		case "reply":
 			// the consumer's request, signed by the consumer as ConstructRelayRequest does
 			req := &pairingtypes.RelayRequest{RelaySession: mkSession(v.Base), RelayData: mkData(v.Base)}
@@ -433,27 +507,30 @@ func main() {
 			req.RelaySession.Sig = ssig
 			// provider side: its own copy of the request (received over the wire) and its reply
 			reqP, repP := cloneReq(req), mkReply(v.Base)
-			reqP0, repP0 := cloneReq(reqP), cloneReply(repP)
+			bigP := rehome(reqP, repP, v.Layout)
+			reqP0, repP0, bigP0 := cloneReq(reqP), cloneReply(repP), append([]byte(nil), bigP...)
 			signed, err := lavaprotocol.SignRelayResponse(consumer.Addr, *reqP, providerKey, repP)
 			if err != nil {
 				hx.Die("SignRelayResponse: %v", err)
 			}
-			if d := diffExchange(reqP0, reqP, repP0, repP, true); d != "" {
+			if d := join(diffExchange(reqP0, reqP, repP0, repP, true), bufDiff(bigP0, bigP)); d != "" {
 				ln.SignRO, ln.SignChanged = false, d
 			}
-			// consumer side: its own request object, the reply as received
+			// consumer side: its own request object, the reply as received, placed in memory as `layout` says
 			reqC, repC := cloneReq(req), cloneReply(signed)
 			mutateExchange(reqC, repC, v.Field, v.Val)
-			reqC0, repC0 := cloneReq(reqC), cloneReply(repC)
+			bigC := rehome(reqC, repC, v.Layout)
+			reqC0, repC0, bigC0 := cloneReq(reqC), cloneReply(repC), append([]byte(nil), bigC...)
 			err = lavaprotocol.VerifyRelayReply(context.Background(), repC, reqC, provider.Addr.String())
-			if err == nil {
-				ln.Verdict = "ok"
-			} else {
-				ln.Verdict, ln.Why = "reject", "error"
+			ln.Verdict = verdictOf(err)
+			if err != nil {
+				ln.Why = "error"
 			}
-			if d := diffExchange(reqC0, reqC, repC0, repC, false); d != "" {
+			if d := join(diffExchange(reqC0, reqC, repC0, repC, false), bufDiff(bigC0, bigC)); d != "" {
 				ln.RO, ln.Changed = false, d
 			}
+			// the same objects checked once more
+			ln.Verdict2 = verdictOf(lavaprotocol.VerifyRelayReply(context.Background(), repC, reqC, provider.Addr.String()))
 		default:
 			hx.Die("unknown kind %s", v.Kind)
 		}
